@@ -108,7 +108,7 @@ impl Lex {
         }
         match self.take_char() {
             None => Ok(Tok::EndOfInput),
-            Some('"') | Some('“') => {
+            Some(open @ ('"' | '“')) => {
                 self.tmp.clear();
                 loop {
                     let c_pos = self.pos;
@@ -134,7 +134,7 @@ impl Lex {
                                 })
                             }
                         }
-                    } else if c == '"' || c == '”' {
+                    } else if c == '"' || (c == '”' && open == '“') {
                         let val = Xcell::Str(Xstr::from(&self.tmp));
                         let ws = self
                             .peek_char()
